@@ -227,8 +227,11 @@ impl<'a> SubregisterSubstitutionBuilder<'a> {
                     if let Expression::Cast { arg, .. } = value {
                         match arg.deref() {
                             Expression::Var(cast_var) if cast_var == input_var => {
+                                // Note that the cast target has to be the complete base register
+                                // and not a smaller register of the same name.
                                 if input_reg.register != input_reg.base_register
                                     && input_reg.base_register == reg.register
+                                    && var.size == reg.size
                                 {
                                     return true;
                                 }
